@@ -8,6 +8,7 @@ mod cbor;
 mod dvtest;
 mod jsontags;
 mod kernels;
+mod modeplan;
 
 use std::path::{Path, PathBuf};
 
@@ -76,6 +77,13 @@ fn main() {
             manifest.insert("dvtest".into(), info);
         }
         Err(e) => { failed.push("dvtest"); errors.push(e) }
+    }
+    match modeplan::generate(&parsed) {
+        Ok((lean, info)) => {
+            std::fs::write(out.join("ModePlan.lean"), lean).expect("write");
+            manifest.insert("modeplan".into(), info);
+        }
+        Err(e) => { failed.push("modeplan"); errors.push(e) }
     }
     manifest.insert("failed".into(), serde_json::json!(failed));
     std::fs::write(out.join("gen_manifest.json"), serde_json::to_string_pretty(&serde_json::Value::Object(manifest)).unwrap()).expect("write manifest");
